@@ -55,6 +55,39 @@ Definition ONLY_HUP : mask := mkM false false false false true false.
 Definition ONLY_IN : mask := mkM true false false false false false.
 Definition ONLY_OUT : mask := mkM false false true false false false.
 
+(* ---- the flag encodings (include/uv.h uv_poll_event, <poll.h>) and the translation
+   tables of uv_poll_start (UV to POLL flags) and uv__poll_io (POLL to UV flags) ----- *)
+Definition UV_READABLE : Z := 1.
+Definition UV_WRITABLE : Z := 2.
+Definition UV_DISCONNECT : Z := 4.
+Definition UV_PRIORITIZED : Z := 8.
+Definition POLLIN : Z := 1.
+Definition POLLPRI : Z := 2.
+Definition POLLOUT : Z := 4.
+Definition POLLERR : Z := 8.
+Definition POLLHUP : Z := 16.
+Definition POLLRDHUP : Z := 8192.
+
+Definition has (v flag : Z) : bool := negb (Z.land v flag =? 0).
+Definition bit (b : bool) (flag : Z) : Z := if b then flag else 0.
+
+(* a mask given in the UV encoding / written in it *)
+Definition mask_of_uv (v : Z) : mask :=
+  mkM (has v UV_READABLE) (has v UV_PRIORITIZED) (has v UV_WRITABLE) false false (has v UV_DISCONNECT).
+Definition uv_of_mask (m : mask) : Z :=
+  bit (m_in m) UV_READABLE + bit (m_out m) UV_WRITABLE + bit (m_rdhup m) UV_DISCONNECT +
+  bit (m_pri m) UV_PRIORITIZED.
+(* ... in the POLL encoding *)
+Definition mask_of_poll (v : Z) : mask :=
+  mkM (has v POLLIN) (has v POLLPRI) (has v POLLOUT) (has v POLLERR) (has v POLLHUP) (has v POLLRDHUP).
+Definition poll_of_mask (m : mask) : Z :=
+  bit (m_in m) POLLIN + bit (m_pri m) POLLPRI + bit (m_out m) POLLOUT + bit (m_err m) POLLERR +
+  bit (m_hup m) POLLHUP + bit (m_rdhup m) POLLRDHUP.
+(* uv_poll_start: the events handed to uv__io_start for a UV request *)
+Definition poll_of_uv (v : Z) : Z := poll_of_mask (mask_of_uv v).
+(* uv__poll_io: the UV events handed to the user for POLL events *)
+Definition uv_of_poll (v : Z) : Z := uv_of_mask (mask_of_poll v).
+
 (* ---- errno / libuv codes ------------------------------------------------ *)
 Definition EBADF : Z := 9.
 Definition EEXIST : Z := 17.
